@@ -20,6 +20,7 @@ structure ConcRun where
   program : String := ""
   ncommits : Nat := 0
   nwriters : Nat := 0
+  nreaders : Nat := 0
   wcommits : List (Nat × Nat × Nat × String) := []   -- thread, round, global order, outcome
   robs : List (String × Nat × String × String) := []  -- id, seen, d1, d2
   overlap : Nat := 0
@@ -60,6 +61,8 @@ def checkRun (d : ConcDefs) (r : ConcRun) : Option String :=
   | none =>
   let total := r.wcommits.length
   if total != r.ncommits * r.nwriters then some s!"{total} commits completed, expected {r.ncommits * r.nwriters}" else
+  -- every reader reports two observations (two read transactions, each dumped twice)
+  if r.robs.length != 2 * r.nreaders then some s!"{r.robs.length} reader observations, expected {2 * r.nreaders}" else
   let dumps := (List.range (total + 1)).map (fun c => dumpBucket (concState d r c) [] true)
   if r.final != dumps.getD total "" then some s!"final state is not the state after all {total} commits (lost update?): {(r.final.take 200).toString}" else
   match r.robs.find? (fun o => o.2.2.1 != o.2.2.2) with
